@@ -250,6 +250,12 @@ pub fn build(tier: Tier) -> Check<'static> {
         }));
     }
     {
+        let sp = pp::redefine_profile();
+        c.parts.push(Part::new("redefinitions", sp.len(), "every ordered pair of definitions of one name (also two identical ones) followed by a usage: the expansion maps into the text of the definition in force", move |i, acc| {
+            pp::check_prog(acc, &sp.get(i), or, "redefinitions");
+        }));
+    }
+    {
         let sp = pp::cond_profile(true, true);
         let stride = tier.pick(7, 1);
         let n = (sp.len() + stride - 1) / stride;
